@@ -379,7 +379,7 @@ Section Agree.
   (** a nilled element: both validators accept it iff the member is nillable *)
   Lemma agree_nil m' k t nillable dflt ns name atts txt :
     ty_known U t -> (k + length U < m')%nat ->
-    xsi_ok atts = true -> is_nil_att atts = true -> no_text txt = true -> plain_atts atts = [] -> nil_ok U t = true ->
+    xsi_ok atts = true -> is_nil_att atts = true -> no_text txt = true -> plain_atts atts = [] -> (negb nillable || nil_ok U t) = true ->
     valid_elem pat olex (Datatypes.S m') S (type_qn U t) nillable dflt (XElt ns name atts txt []) = nillable
     /\ is_ok (soft U ord (Datatypes.S k) t nillable (XElt ns name atts txt [])) = nillable.
   Proof.
@@ -388,7 +388,7 @@ Section Agree.
     destruct (lookup_att xsi_ns t_nil atts) as [v|] eqn:El; [|discriminate].
     cbn -[resolve_simple eff_content attrs_ok match_seq].
     rewrite (xsi_ok_guard atts Hx), El. cbn [negb is_some andb].
-    destruct nillable; [|reflexivity]. cbn [negb].
+    destruct nillable; [|reflexivity]. cbn [negb orb] in Hnok. cbn [negb].
     pose proof (nil_value_true v Hl) as Hv. cbv zeta in Hv. rewrite Hv.
     fold (plain_atts atts). rewrite Hp.
     pose proof (plain_nil_all_xsi atts Hp) as Hall.
